@@ -280,9 +280,10 @@ fn verif_cex_public_api_drain_schedules() {
         let want = ref_enc(x, 252, 64008);
         for cut in 0..=x.len() {
             for schedule in 0..3 {
+              for mode in 0..4 {
                 let mut drained: Vec<u8> = Vec::new();
                 let mut e = Encoder::new();
-                e.encode_copy(&x[..cut]);
+                if mode & 1 == 1 { e.encode_copy(&x[..cut]) } else { e.encode(&x[..cut]) }
                 match schedule {
                     0 => {}
                     1 => {
@@ -290,18 +291,19 @@ fn verif_cex_public_api_drain_schedules() {
                     }
                     _ => drain_all(&mut e.consumer(), &mut drained),
                 }
-                e.encode(&x[cut..]);
+                if mode & 2 == 2 { e.encode_copy(&x[cut..]) } else { e.encode(&x[cut..]) }
                 if schedule == 2 {
                     drain_all(&mut e.consumer(), &mut drained);
                 }
                 if !want.starts_with(&drained) {
-                    report("encoder-drained-not-a-prefix", x, &format!("{}|sched{}", cut, schedule), &hex(&drained), &hex(&want));
+                    report("encoder-drained-not-a-prefix", x, &format!("{}|sched{}|mode{}", cut, schedule, mode), &hex(&drained), &hex(&want));
                 }
                 let rest = e.finish().flatten().expect("no backpatch left");
                 drained.extend_from_slice(&rest);
                 if drained != want {
-                    report("encoder-drain-schedule", x, &format!("{}|sched{}", cut, schedule), &hex(&drained), &hex(&want));
+                    report("encoder-drain-schedule", x, &format!("{}|sched{}|mode{}", cut, schedule, mode), &hex(&drained), &hex(&want));
                 }
+              }
                 // decoder, same schedules over the encoded stream
                 let y = &want;
                 let ycut = (cut * y.len()) / (x.len() + 1);
@@ -324,4 +326,123 @@ fn verif_cex_public_api_drain_schedules() {
             }
         }
     });
+}
+
+#[test]
+fn verif_cex_single_stuff_at_boundary_offsets() {
+    // One FE FD (and, separately, FE FF FD) placed at offsets around powers of two and around the chunk starts,
+    // in an otherwise stuff-free 70 000-byte input: the positions where block- or word-wise scanning goes wrong.
+    let n = 70_000usize;
+    let mut offsets: Vec<usize> = Vec::new();
+    for base in [0usize, 252, 252 + 64008] {
+        for k in 3..=16 {
+            for d in [-2i64, -1, 0, 1] {
+                let p = base as i64 + (1i64 << k) + d;
+                if p >= 0 && (p as usize) + 3 < n {
+                    offsets.push(p as usize);
+                }
+            }
+        }
+    }
+    offsets.sort();
+    offsets.dedup();
+    for &p in &offsets {
+        for shape in 0..2 {
+            let mut x: Vec<u8> = (0..n).map(|i| (i % 199) as u8).collect();
+            x[p] = 0xfe;
+            if shape == 0 {
+                x[p + 1] = 0xfd;
+            } else {
+                x[p + 1] = 0xff;
+                x[p + 2] = 0xfd;
+            }
+            let want = ref_enc(&x, 252, 64008);
+            for copy in [false, true] {
+                let mut e = Encoder::new();
+                if copy { e.encode_copy(&x) } else { e.encode(&x) }
+                let got = e.finish().flatten().expect("no backpatch left");
+                if got != want {
+                    report("encoder-output-boundary-offset", &x[p.saturating_sub(2)..p + 4], &format!("p={} shape={} copy={}", p, shape, copy),
+                           &format!("len {}", got.len()), &format!("len {}", want.len()));
+                }
+                if find_stuff_sequence_reference(&got).is_some() {
+                    report("encoder-stuff-in-output", &x[p.saturating_sub(2)..p + 4], &format!("p={} shape={} copy={}", p, shape, copy), "FE FD in output", "none");
+                }
+            }
+        }
+    }
+}
+
+fn find_stuff_sequence_reference(b: &[u8]) -> Option<usize> {
+    b.windows(2).position(|w| w == [0xfe, 0xfd])
+}
+
+struct FailingReader(std::io::ErrorKind);
+impl std::io::Read for FailingReader {
+    fn read(&mut self, _dst: &mut [u8]) -> std::io::Result<usize> {
+        Err(self.0.into())
+    }
+}
+
+#[test]
+fn verif_cex_failed_read_is_a_no_op() {
+    // C17 (codec half): a read that fails with nothing delivered, in the middle of a stream, must leave
+    // the encoder's / decoder's output and state untouched.
+    let x: &[u8] = b"hello, \xfe\xfd world \xfe";
+    let want = ref_enc(x, 252, 64008);
+    let one = std::num::NonZeroUsize::new(3).unwrap();
+    for cut in 0..=x.len() {
+        for kind in [std::io::ErrorKind::Interrupted, std::io::ErrorKind::WouldBlock, std::io::ErrorKind::Other] {
+            let mut e = Encoder::new();
+            e.encode_copy(&x[..cut]);
+            if e.encode_read(FailingReader(kind), 16, one).is_ok() {
+                report("encode-read-failed-read-reported-ok", x, &format!("{}", cut), "Ok", "Err");
+            }
+            e.encode(&x[cut..]);
+            let got = e.finish().flatten().expect("no backpatch left");
+            if got != want {
+                report("encode-read-failed-read-changed-output", x, &format!("{}|{:?}", cut, kind), &hex(&got), &hex(&want));
+            }
+        }
+    }
+    for cut in 0..=want.len() {
+        for kind in [std::io::ErrorKind::Interrupted, std::io::ErrorKind::WouldBlock, std::io::ErrorKind::Other] {
+            let mut d = Decoder::new();
+            d.decode_copy(&want[..cut]).expect("valid prefix");
+            if d.decode_read(FailingReader(kind), 16, one).is_ok() {
+                report("decode-read-failed-read-reported-ok", x, &format!("{}", cut), "Ok", "Err");
+            }
+            let tail_ok = d.decode_copy(&want[cut..]).is_ok();
+            let back = if tail_ok { d.finish().ok().map(|v| v.flatten().expect("flat")) } else { None };
+            if back.as_deref() != Some(x) {
+                report("decode-read-failed-read-changed-state", &want, &format!("{}|{:?}", cut, kind), &format!("{:?}", back.map(|v| hex(&v))), &hex(x));
+            }
+        }
+    }
+}
+
+#[test]
+fn verif_cex_encoder_lag_is_bounded() {
+    // C09 lag, at slice granularity on the real OwningIovec: after any encode call, output produced but not
+    // consumable stays below one (1 MiB) arena chunk + one 64008-byte chunk and its header, whatever the call size.
+    let bound = (1usize << 20) + 64008 + 2;
+    for copy in [true, false] {
+        let big: Vec<u8> = (0..(3usize << 20)).map(|i| (i % 251) as u8).collect();
+        let mut e = Encoder::new();
+        let mut fed = 0usize;
+        for call in [1000usize, 69_000, (1 << 20) + 4097, 3 << 19] {
+            let piece = &big[fed..fed + call];
+            fed += call;
+            if copy { e.encode_copy(piece) } else { e.encode(piece) }
+            let c = e.consumer();
+            let total = c.total_size();
+            let stable: usize = c.stable_prefix().iter().map(|s| s.len()).sum();
+            if total - stable > bound {
+                report("encoder-lag-unbounded", &[], &format!("call={} copy={}", call, copy), &format!("{}", total - stable), &format!("<= {}", bound));
+            }
+            drop(c);
+            let mut sink = Vec::new();
+            drain_all(&mut e.consumer(), &mut sink);
+        }
+    }
 }
